@@ -106,8 +106,8 @@ func runC22(outer *testing.T) func(t rapid.TB, c Case, rec *vx.Case) {
 				vx.Violatef(t, rec, id, "metadata-sets-differ", "%s: consensus %s processedTime %s processedHeight %s iteration %s", where,
 					fmtHs(rs.Heights()), fmtHs(tmsim.SortedHeights(rs.PTime)), fmtHs(tmsim.SortedHeights(rs.PHeight)), fmtHs(tmsim.SortedHeights(rs.Iter)))
 			}
-			for h, v := range rs.Iter {
-				if string(v) != "consensusStates/"+h.String() {
+			for _, h := range tmsim.SortedHeights(rs.Iter) {
+				if v := rs.Iter[h]; string(v) != "consensusStates/"+h.String() {
 					vx.Violatef(t, rec, id, "iteration-value-wrong", "%s: iteration key of %s maps to %q", where, h, v)
 				}
 			}
@@ -173,6 +173,7 @@ func runC22(outer *testing.T) func(t rapid.TB, c Case, rec *vx.Case) {
 				}
 			}
 			sort.Slice(missing, func(a, b int) bool { return missing[a].Less(missing[b]) })
+			sort.Slice(extra, func(a, b int) bool { return extra[a].Less(extra[b]) })
 			if len(extra) > 0 {
 				vx.Violatef(t, rec, id, "unexpected-height-stored", "heights %s appeared that the model does not expect; %s", fmtHs(extra), where)
 			}
@@ -243,14 +244,14 @@ func b2i(b bool) int64 {
 	return 0
 }
 
-var wC22 = weights{"tip": 6, "past": 5, "update": 4, "resubmit": 2, "conflict": 1, "time": 10, "block": 1, "recover": 3}
+var wC22 = weights{"tip": 6, "past": 5, "update": 4, "resubmit": 2, "conflict": 1, "time": 12, "block": 1, "recover": 3}
 
 func TestC22(t *testing.T) {
 	vx.Check(t, vx.Prop[Case]{
 		ID:        "C22",
 		Rule:      "C20-style histories with heights drawn from a universe rich in awkward encodings (47=0x2f, 0x2f00, 0x2f2f2f, 255/256, 2^32+-1, 2^62) and several revisions in one store via recovery from a substitute on revision V-2; non-trivial = >=4 stored heights incl. an awkward one and >=1 prune; distinct by full history",
 		MinNTFrac: 0.2,
-		Gen:       func(t *rapid.T) Case { return genCase(t, wC22, 30, func(i, n int) int { return 3 }) },
+		Gen:       func(t *rapid.T) Case { return genCase(t, wC22, 36, func(i, n int) int { return 3 }) },
 		Run:       runC22(t),
 	})
 }
